@@ -130,11 +130,17 @@ Theorem C19_model_matches_source :
   (forall (F : Type) (K : Ops F) (n : nat) (x : F),
      pc_scale K n x = opa_pc_scale_src K n x /\ eof_scale K n x = opa_eof_scale_src K n x) /\
   (forall n tau : nat, opa_ctau_divisor_src n tau = (Z.of_nat (n - tau) - 1)%Z) /\
-  opa_eigen_via_svd = true /\ opa_decomposer_flip_signs = false /\ opa_lag_loop_includes_tau_max = true /\
+  opa_decomposer_flip_signs = false /\ opa_lag_loop_includes_tau_max = true /\
   opa_store = [("input_data", "scores"); ("components", "W"); ("scores", "P"); ("norms", "norms");
                ("filter_patterns", "V"); ("decorrelation_time", "lbda")]%string.
 Proof. exact model_matches_source. Qed.
 Print Assumptions C19_model_matches_source.
+
+(* the model variant selected by the generated flag `opa_eigen_via_svd` reports what that flag says *)
+Theorem C19_variant_matches_source : forall (F : Type) (K : Ops F) (n p q k : nat) (S E Ci U : list (list F)) (lam : list F),
+  o_tau (opa_fit_src K n p q k S E Ci U lam) = reported K opa_eigen_via_svd k lam.
+Proof. exact tie_variant. Qed.
+Print Assumptions C19_variant_matches_source.
 
 Theorem C19_products_match_source : forall (F : Type) (K : Ops F) (svd : bool) (n p q k : nat) (S E Ci U : list (list F)) (lam : list F),
   let o := opa_fit K svd n p q k S E Ci U lam in
